@@ -352,14 +352,16 @@ fn sel_json(store: &AnnotationStore, t: &SelectorBuilder<'static>) -> Option<ser
 }
 
 /// STAM JSON of an annotation request (as `annotate_from_file` reads it); None if it cannot be written as a document
-/// (a request without target cannot: the document format requires the member)
 fn parts_json(store: &AnnotationStore, parts: &Parts) -> Option<serde_json::Value> {
     let mut o = serde_json::Map::new();
     o.insert("@type".into(), "Annotation".into());
     if let Some(id) = &parts.0 {
         o.insert("@id".into(), id.clone().into());
     }
-    o.insert("target".into(), sel_json(store, parts.1.as_ref()?)?);
+    // a request without target is written without the member: the document then cannot be deserialised at all
+    if let Some(t) = parts.1.as_ref() {
+        o.insert("target".into(), sel_json(store, t)?);
+    }
     let mut data = vec![];
     for d in &parts.2 {
         let mut dj = serde_json::Map::new();
@@ -610,7 +612,10 @@ impl Property for C14 {
                 return out;
             }
         };
+        let before_dump = m.store.verif_dump();
+        let before_set_dumps: Vec<_> = m.store.datasets().map(|d| (d.handle().as_usize(), d.as_ref().verif_dump())).collect();
         let class: String;
+        let mut whole_file_rejected = false;
         let mut corrected: Option<(AnnotationBuilder<'static>, AnnotationBuilder<'static>)> = None;
         let result: Result<Result<(), String>, PanicInfo>;
         match &case.req {
@@ -704,6 +709,12 @@ impl Property for C14 {
                 let querytext: Option<String> = if *via == 2 && !is_batch { parts_query(&m.store, &all[0]) } else { None };
                 if let Some(doc) = doc {
                     out.label("via.annotate_from_file");
+                    if all.iter().any(|p| p.1.is_none()) {
+                        // an element the reader cannot deserialise: the file is rejected as a whole, before anything is
+                        // applied - also the valid elements in front of it
+                        out.label("file_not_deserialisable");
+                        whole_file_rejected = true;
+                    }
                     out.label(if is_batch { "batch" } else { "single" });
                     let dir = crate::props::c05::TempDir::new("c14");
                     let path = dir.path("annotations.json");
@@ -818,7 +829,10 @@ impl Property for C14 {
                 return out;
             }
         };
-        let reference = if matches!(&case.req, Request::Annotate { batch_before, batch_after, .. } if !batch_before.is_empty() || !batch_after.is_empty()) {
+        let reference = if whole_file_rejected {
+            corrected = None;
+            before.clone()
+        } else if matches!(&case.req, Request::Annotate { batch_before, batch_after, .. } if !batch_before.is_empty() || !batch_after.is_empty()) {
             match catch(|| observe(&twin.store)) {
                 Ok(o) => o,
                 Err(_) => {
@@ -829,7 +843,10 @@ impl Property for C14 {
         } else {
             before.clone()
         };
-        let dump_equal = {
+        let dump_equal = if whole_file_rejected {
+            let now: Vec<_> = m.store.datasets().map(|d| (d.handle().as_usize(), d.as_ref().verif_dump())).collect();
+            m.store.verif_dump() == before_dump && now == before_set_dumps
+        } else {
             let a = m.store.verif_dump();
             let b = twin.store.verif_dump();
             let mut eq = a == b;
